@@ -115,6 +115,9 @@ func inferSpec(fd *ast.FuncDecl, file string, caller *FuncSpec) (FuncSpec, bool)
 	sp := *caller
 	sp.File, sp.Name, sp.Lean = file, fd.Name.Name, fd.Name.Name
 	sp.Params, sp.RetType, sp.RetParam, sp.Writer, sp.WrapOk, sp.WrapBoth = nil, "", "", "", "", ""
+	// context parameters of the model that are not parameters of the Go function (oracle records the caller's Rename
+	// table refers to, e.g. `(o : SessOracles)`): the helper inherits them, its call sites pass them on (autoCtxPatch)
+	sp.Params = append(sp.Params, caller.AutoCtx...)
 	if fd.Type.TypeParams != nil {
 		return sp, false
 	}
@@ -216,8 +219,41 @@ func (g *genCtx) autoHelpers(sp *FuncSpec, src string, depth int) string {
 		}
 		translatedFuncs[name] = true
 		autoNS[name] = append(autoNS[name], curNS)
+		if len(sp.AutoCtx) > 0 {
+			autoCtxArgs[name] = autoCtxNames(sp.AutoCtx)
+		}
 		out.WriteString(g.autoHelpers(&hsp, hsrc, depth+1))
-		out.WriteString(hsrc + "\n")
+		out.WriteString(autoCtxPatch(hsrc) + "\n")
 	}
 	return out.String()
+}
+
+// autoCtxArgs: auto-translated helper -> the context arguments (FuncSpec.AutoCtx of the caller) its call sites pass after `now`.
+var autoCtxArgs = map[string]string{}
+
+var autoCtxNameRe = regexp.MustCompile(`^\(([^:]+):`)
+
+func autoCtxNames(ps []string) string {
+	var ns []string
+	for _, p := range ps {
+		if m := autoCtxNameRe.FindStringSubmatch(p); m != nil {
+			ns = append(ns, strings.Fields(m[1])...)
+		}
+	}
+	return strings.Join(ns, " ")
+}
+
+// autoCtxPatch rewrites the call sites `(helper now …` of helpers that take context arguments to `(helper now <ctx> …`.
+// A no-op unless some spec of the run sets AutoCtx (the regenerated files of all other groups stay byte-identical).
+func autoCtxPatch(src string) string {
+	if len(autoCtxArgs) == 0 {
+		return src
+	}
+	return autoCallRe.ReplaceAllStringFunc(src, func(m string) string {
+		name := autoCallRe.FindStringSubmatch(m)[1]
+		if a, ok := autoCtxArgs[name]; ok && a != "" {
+			return m + " " + a
+		}
+		return m
+	})
 }
